@@ -1060,18 +1060,63 @@ impl<Body> Response<Body> {
 impl Response<Vec<u8>> {
     /// what reading this response's body as a string / as JSON gives (decode_body: unit D; serde_json: uninterpreted)
     pub uninterp spec fn body_string_s(&self) -> Result<String>;
-    pub uninterp spec fn body_json_s<T>(&self) -> Result<T>;
-    // ASSUMED here (body_string -> content_type + decode_body, proved in unit D; body_json -> serde_json): they
-    // consume the body and leave status, headers and version alone
+    /// what `body_bytes` yields: the stored bytes, or the "Body had no bytes" error when they were taken before
+    pub uninterp spec fn body_bytes_s(&self) -> Result<Vec<u8>>;
+    /// what reading the body as JSON gives: the bytes handed to serde_json, its error turned into an HttpError by From
+    pub open spec fn body_json_s<T>(&self) -> Result<T> {
+        match self.body_bytes_s() {
+            Ok(b) => match json_from_slice_s::<T>(b@) { Ok(v) => Ok(v), Err(e) => Err(json_err_s(e)) },
+            Err(e) => Err(e),
+        }
+    }
+    // ASSUMED here (body_string -> content_type + decode_body, proved in unit D): consumes the body and leaves
+    // status, headers and version alone
     #[verifier::external_body]
     pub fn body_string(&mut self) -> (r: Result<String>)
         ensures r == old(self).body_string_s(), final(self).status == old(self).status, final(self).headers == old(self).headers, final(self).version == old(self).version,
     { unimplemented!() }
+    // ASSUMED (crux_http/src/response/response.rs: `self.body.take().ok_or_else(..)`): takes the body, leaves
+    // status, headers and version alone
     #[verifier::external_body]
-    pub fn body_json<T>(&mut self) -> (r: Result<T>)
-        ensures r == old(self).body_json_s::<T>(), final(self).status == old(self).status, final(self).headers == old(self).headers, final(self).version == old(self).version,
+    pub fn body_bytes(&mut self) -> (r: Result<Vec<u8>>)
+        ensures r == old(self).body_bytes_s(), final(self).status == old(self).status, final(self).headers == old(self).headers, final(self).version == old(self).version,
+    { unimplemented!() }
+//@extract id=Response::body_json file=crux_http/src/response/response.rs within="impl Response<Vec<u8>>" item="fn body_json" props=C15
+//@expect pub fn body_json<T: DeserializeOwned>(&mut self) -> crate::Result<T>
+//@sig pub fn body_json<T: DeserializeOwned>(&mut self) -> (r: Result<T>)
+//@contract
+        ensures
+            r == old(self).body_json_s::<T>(), // [C15/Response::body_json/exactly-the-body-bytes-go-to-the-json-deserializer-and-its-answer-or-error-comes-back]
+            final(self).status == old(self).status && final(self).headers == old(self).headers && final(self).version == old(self).version, // [C15/Response::body_json/reading-the-body-leaves-status-headers-version-alone]
+//@end
+}
+/// serde::de::DeserializeOwned (marker)
+pub trait DeserializeOwned {}
+/// serde_json::Error (opaque)
+#[verifier::external_body]
+pub struct SerdeJsonError { _p: u8 }
+/// what serde_json makes of these bytes for the type T (third-party, uninterpreted)
+pub uninterp spec fn json_from_slice_s<T>(b: Seq<u8>) -> core::result::Result<T, SerdeJsonError>;
+/// crux_http/src/error.rs From<serde_json::Error>: HttpError::Json(e.to_string())
+pub uninterp spec fn json_err_s(e: SerdeJsonError) -> HttpError;
+pub mod serde_json {
+    use super::*;
+    // ASSUMED (serde_json): a function of the bytes and the target type
+    #[verifier::external_body]
+    pub fn from_slice<T: DeserializeOwned>(v: &[u8]) -> (r: core::result::Result<T, SerdeJsonError>)
+        ensures r == json_from_slice_s::<T>(v@),
     { unimplemented!() }
 }
+impl vstd::std_specs::convert::FromSpecImpl<SerdeJsonError> for HttpError {
+    open spec fn obeys_from_spec() -> bool { true }
+    open spec fn from_spec(e: SerdeJsonError) -> Self { json_err_s(e) }
+}
+impl From<SerdeJsonError> for HttpError {
+    // ASSUMED (crux_http/src/error.rs: From<serde_json::Error>, builds HttpError::Json from the message)
+    #[verifier::external_body]
+    fn from(e: SerdeJsonError) -> (r: HttpError) { unimplemented!() }
+}
+// (Result::map_err: vstd's own specification)
 impl<Body> Response<Body> {
 //@extract id=Response::with_body file=crux_http/src/response/response.rs within="impl<Body> Response<Body>" item="fn with_body" props=C15
 //@expect pub fn with_body<NewBody>(self, body: NewBody) -> Response<NewBody>
@@ -1106,7 +1151,7 @@ impl ExpectString {
         let mut resp = resp;
 //@end
 }
-impl<T> ExpectJson<T> {
+impl<T: DeserializeOwned> ExpectJson<T> {
 //@extract id=ExpectJson::decode file=crux_http/src/expect.rs within="impl<T> ResponseExpectation for ExpectJson<T>" item="fn decode" props=C15
 //@expect fn decode(&self, mut resp: crate::Response<Vec<u8>>) -> Result<Response<T>>
 //@sig fn decode(&self, resp: Response<Vec<u8>>) -> (r: Result<Response<T>>)
